@@ -98,6 +98,8 @@ type c07Env struct {
 	caps    string   // what the model was last told about the latest compass ABI (op `compass`)
 	capsOf  map[string]c07Caps
 	prev    map[uint64]int // message id -> validator the message was assigned to before it was re-assigned
+	// receipt readings already reported by checkReceiptReading (one hit per shape)
+	receiptHits map[string]bool
 }
 
 func (e *c07Env) op(line, out string) {
@@ -691,6 +693,7 @@ type c07Tx struct {
 	foreign bool                  // sent to an address that is not the compass contract of the chain
 	what    string
 	status  int // receipt the relayer's transaction really got: 1 ok, 0 failed, -1 no receipt
+	root    int // > 0: that receipt carries NO status code but the state root c07StateRoot(root) in its place (then status is 0)
 	log     bool
 	shape   int             // what else the receipt's log list looks like (c07LogShapes); carried in the evidence variant as 10*shape
 	from    string          // who sent it: assignee | validator | previous | outsider | unsigned (c07SenderClasses)
@@ -716,6 +719,7 @@ type c07Ev struct {
 	kind    string // "tx" | "err"
 	tx      *c07Tx // kind tx
 	status  int    // receipt status this validator reports (1, 0, -1 = no receipt)
+	root    int    // > 0: the receipt's first field is the 32-byte state root c07StateRoot(root), not a status code (status is 0: it reports no success)
 	log     bool   // receipt carries the ContractDeployed log
 	variant int    // anything else in the receipt (cumulative gas used)
 	enc     int    // serialization of the transaction in this validator's proof (0 canonical, k = blob sidecar k)
@@ -724,7 +728,10 @@ type c07Ev struct {
 // norm: without a receipt there is nothing the log flag or the variant could be part of.
 func (v c07Ev) norm() c07Ev {
 	if v.kind == "tx" && v.status < 0 {
-		v.log, v.variant = false, 0
+		v.log, v.variant, v.root = false, 0, 0
+	}
+	if v.kind == "tx" && v.root > 0 {
+		v.status = 0
 	}
 	return v
 }
@@ -735,7 +742,7 @@ func (v c07Ev) key() string {
 	if v.kind != "tx" {
 		return "err"
 	}
-	return fmt.Sprintf("tx/%s/%d/%v/%d/%d", v.tx.tx.Hash().Hex(), v.status, v.log, v.variant, v.enc)
+	return fmt.Sprintf("tx/%s/%d/%v/%d/%d/%d", v.tx.tx.Hash().Hex(), v.status, v.log, v.variant, v.enc, v.root)
 }
 
 func (v c07Ev) token() string {
@@ -746,6 +753,10 @@ func (v c07Ev) token() string {
 	st := "-"
 	if v.status >= 0 {
 		st = fmt.Sprint(v.status)
+	}
+	if v.root > 0 {
+		// the receipt's first field as submitted; the model decodes it
+		st = "f" + c05X(c07StateRoot(v.root))
 	}
 	from := "-"
 	if v.tx.sender != nil {
@@ -918,11 +929,19 @@ func (e *c07Env) raw(tx *c07Tx, enc int) []byte {
 	return raw
 }
 
-func (e *c07Env) receipt(txType uint8, status int, withLog bool, variant int) []byte {
+func (e *c07Env) receipt(txType uint8, status int, withLog bool, variant int, root int) []byte {
 	if status < 0 {
 		return nil
 	}
 	rc := &ethtypes.Receipt{Type: txType, Status: uint64(status), CumulativeGasUsed: 21000 + uint64(variant)}
+	if root > 0 {
+		// a receipt WITHOUT status code: the post-transaction state root stands where the status would
+		// (consensus form before EIP-658; also what a node that fills in both `root` and `status`
+		// produces - for a reverted transaction as well: go-ethereum writes the root whenever there is
+		// one, whatever Status says; both spellings are generated and give the same bytes)
+		rc.PostState = c07StateRoot(root)
+		rc.Status = uint64(root % 2)
+	}
 	shape := variant / 10
 	other := ethcrypto.Keccak256Hash([]byte("Other()"))
 	// an unrelated log first, then (optionally) the ContractDeployed event
@@ -960,6 +979,17 @@ func (e *c07Env) receipt(txType uint8, status int, withLog bool, variant int) []
 	if err != nil {
 		e.t.Fatal(err)
 	}
+	// the harness's own reading of the bytes it submits (plain RLP, no receipt decoder involved)
+	field, ok := c07ReceiptFirstField(bz)
+	switch {
+	case !ok:
+		e.t.Fatalf("receipt: cannot read back the first field of %x", bz)
+	case root > 0 && !bytes.Equal(field, c07StateRoot(root)):
+		e.t.Fatalf("receipt: first field %x is not the state root", field)
+	case root == 0 && !bytes.Equal(field, map[int][]byte{1: {1}, 0: {}}[status]):
+		e.t.Fatalf("receipt: first field %x does not spell status %d", field, status)
+	}
+	e.checkReceiptReading(bz)
 	return bz
 }
 
@@ -972,18 +1002,24 @@ func (e *c07Env) proof(v c07Ev) *codectypes.Any {
 		return any
 	}
 	raw := e.raw(v.tx, v.enc)
-	any, err := codectypes.NewAnyWithValue(&evmtypes.TxExecutedProof{SerializedTX: raw, SerializedReceipt: e.receipt(v.tx.tx.Type(), v.status, v.log, v.variant)})
+	any, err := codectypes.NewAnyWithValue(&evmtypes.TxExecutedProof{SerializedTX: raw, SerializedReceipt: e.receiptOf(v)})
 	if err != nil {
 		e.t.Fatal(err)
 	}
 	return any
 }
 
+// receiptOf: the serialized receipt of one validator's evidence (nil: none).
+func (e *c07Env) receiptOf(v c07Ev) []byte {
+	v = v.norm()
+	return e.receipt(v.tx.tx.Type(), v.status, v.log, v.variant, v.root)
+}
+
 // evs builds evidence of the given validators for one transaction with its real receipt.
 func (tx *c07Tx) evs(vals []int) []c07Ev {
 	var out []c07Ev
 	for _, i := range vals {
-		out = append(out, c07Ev{val: i, kind: "tx", tx: tx, status: tx.status, log: tx.log, variant: 10 * tx.shape, enc: tx.enc})
+		out = append(out, c07Ev{val: i, kind: "tx", tx: tx, status: tx.status, root: tx.root, log: tx.log, variant: 10 * tx.shape, enc: tx.enc})
 	}
 	return out
 }
@@ -1011,7 +1047,15 @@ type c07Force struct {
 	abiOther   bool
 	chVariant  string // up: the same, for the handover message the accepted upload schedules
 	junk       bool   // the reported transaction carries call data that has nothing to do with the message
-	noSigs     bool   // no validator has signed the message
+	caseFlip   bool   // ... the genuine call data with the case bit of some bytes that are ASCII letters flipped
+	// the receipt every validator reports: root > 0 = no status code, the state root c07StateRoot(root)
+	// in its place; failed = the failure code
+	root   int
+	failed bool
+	// the valset id the relayer names in the public access data: "" the current snapshot | none (no
+	// public access data) | zero | unknown (no such snapshot) | older (an existing earlier snapshot)
+	pad    string
+	noSigs bool // no validator has signed the message
 	// who sent the remote transaction (c07SenderClasses; "" = an outsider), and which account its call
 	// data names where the compass method takes the relayer (c07Names; "" = the assigned relayer)
 	from  string
@@ -1359,7 +1403,16 @@ func (e *c07Env) buildTx(s *c07Stored, f *c07Force) *c07Tx {
 			case 3:
 				data[r.Intn(4)] ^= 0x10
 				exact, what = false, "raw:selector"
+			case 4:
+				// different bytes that a looser comparison (case folding) takes for equal
+				if c07CaseFlip(data, r) {
+					exact, what = false, "raw:letter-case"
+					e.r.Stat("calldata:letter-case-flipped")
+				}
 			}
+		} else if f.caseFlip && c07CaseFlip(data, r) {
+			exact, what = false, "raw:letter-case"
+			e.r.Stat("calldata:letter-case-flipped")
 		}
 		// ground truth for the monitors: the data is the relayer encoding of this very message
 		// for SOME non-empty signature prefix (with an empty valset every prefix encodes alike)
@@ -1398,6 +1451,12 @@ func (e *c07Env) buildTx(s *c07Stored, f *c07Force) *c07Tx {
 		if s.msg.GetUploadUserSmartContract() != nil {
 			out.shape = f.logShape
 		}
+		if f.failed {
+			out.status = 0
+		}
+		if f.root > 0 {
+			out.status, out.root = 0, f.root
+		}
 		return out
 	}
 	switch r.Intn(8) {
@@ -1407,6 +1466,9 @@ func (e *c07Env) buildTx(s *c07Stored, f *c07Force) *c07Tx {
 		if r.Intn(2) == 0 {
 			out.status = -1
 		}
+	case 2:
+		// the receipt carries a state root where the status code would be: it reports no success
+		out.status, out.root = 0, 1+r.Intn(c07StateRoots)
 	}
 	if s.msg.GetUploadUserSmartContract() != nil {
 		switch r.Intn(8) {
@@ -1635,13 +1697,27 @@ func (e *c07Env) attest(ctx sdk.Context, id uint64, evs []c07Ev, kind string) (c
 	// transaction proofs: no error, the message committed as handled
 	accepted := len(fx) > 0 || (class == "nil" && removed && grp != nil && grp.kind == "tx")
 	_ = anyProcessed
+	// does the receipt the quorum reported report success?  Read off the submitted bytes: its first
+	// field is the success code (not the failure code, not a state root, not absent)
+	reports := false
+	if grp != nil && grp.kind == "tx" {
+		reports = c07ReceiptReportsSuccess(e.receiptOf(*grp))
+		if n := grp.norm(); reports != (n.status == 1 && n.root == 0) {
+			e.t.Fatalf("harness: evidence %s labelled status %d root %d, but its receipt bytes say reports-success=%v", grp.key(), n.status, n.root, reports)
+		}
+	}
 	if accepted {
 		switch {
-		case grp == nil || grp.kind != "tx" || grp.status != 1:
+		case grp == nil || grp.kind != "tx" || !reports:
 			what := "no 2/3 group of byte-identical evidence"
 			if grp != nil && grp.kind == "tx" {
 				what = fmt.Sprintf("the 2/3 group reported receipt status %d", grp.status)
-				e.r.Hit("accept_implies_success_receipt", fmt.Sprintf("accepted although the quorum's receipt has status %d", grp.status), e.lines)
+				said := fmt.Sprintf("has status %d", grp.status)
+				if grp.root > 0 {
+					what = "the 2/3 group reported a receipt that carries no status code (a state root in its place)"
+					said = "carries no success code but a 32-byte state root"
+				}
+				e.r.Hit("accept_implies_success_receipt", "accepted although the quorum's receipt "+said, e.lines)
 			} else if grp != nil {
 				what = "the 2/3 group reported an execution error"
 			}
@@ -1665,6 +1741,9 @@ func (e *c07Env) attest(ctx sdk.Context, id uint64, evs []c07Ev, kind string) (c
 				} else if ok {
 					e.r.Stat("accepted:names-assigned-relayer:sent-by-" + tx.from)
 				}
+			}
+			if mi := c07MethodOf(kind); mi >= 0 {
+				e.checkAcceptedValset(ctx, kind, c07Methods[mi], tx)
 			}
 			if tx.foreign {
 				e.r.Stat("observed:accepted-tx-not-addressed-to-compass")
@@ -1972,6 +2051,34 @@ func c07Directed(t *testing.T, r *Rec) {
 	for _, c := range [][2]string{{"assignee", ""}, {"validator", "sender"}, {"outsider", "sender"}, {"assignee", "validator"}, {"unsigned", ""}, {"validator", ""}} {
 		run("up", &c07Force{upCtor: "regular", upData: "exact", chFrom: c[0], chNames: c[1]})
 	}
+	// the genuine transaction of every kind of message, reported unanimously with a receipt that does
+	// not report success: the failure code, and a 32-byte state root where the status code would be
+	// (legacy and typed receipts, every root shape)
+	k = 0
+	for _, kind := range []string{"uv", "slc", "usc", "up"} {
+		for root := 0; root <= c07StateRoots; root++ {
+			k++
+			f := &c07Force{existing: true, class: classes[k%4], root: root, failed: root == 0}
+			if kind == "up" {
+				f.upCtor, f.upData, f.class = "regular", "exact", classes[k%3]
+			}
+			run(kind, f)
+		}
+	}
+	for _, kind := range []string{"uv", "slc", "usc"} {
+		for i := 0; i < 3; i++ {
+			run(kind, &c07Force{existing: true, caseFlip: true, class: classes[i]})
+		}
+	}
+	// the valset id the relayer names in the public access data: the current snapshot, none at all, 0,
+	// a snapshot that does not exist, an existing earlier one - with the genuine call data for that
+	// choice (the consensus argument built from the valset the keeper selects for it)
+	for _, kind := range []string{"uv", "slc", "usc"} {
+		for _, pad := range []string{"", "none", "zero", "unknown", "older"} {
+			run(kind, &c07Force{existing: true, pad: pad})
+			run(kind, &c07Force{existing: true, pad: pad, noSigs: true})
+		}
+	}
 	r.Stat(fmt.Sprintf("directed-cases:%d", n))
 }
 
@@ -2054,6 +2161,11 @@ func (e *c07Env) driveMessage(ctx sdk.Context, id uint64, kind string, caseKey *
 	cur := e.observe(ctx).cur
 	padMode := r.Rng.Intn(10)
 	if f != nil {
+		padMode = map[string]int{"": 9, "none": 0, "unknown": 1, "older": 2, "zero": 3}[f.pad]
+	} else if padMode == 2 && r.Rng.Intn(2) == 0 {
+		padMode = 3
+	}
+	if padMode == 2 && cur < 2 {
 		padMode = 9
 	}
 	switch padMode {
@@ -2064,6 +2176,16 @@ func (e *c07Env) driveMessage(ctx sdk.Context, id uint64, kind string, caseKey *
 			return err
 		}
 		r.Stat("pad:unknown-valset")
+	case 2: // an EXISTING earlier snapshot (what a bridge contract that missed an update still holds)
+		if err := e.publicAccess(ctx, id, cur-1-uint64(r.Rng.Intn(int(cur-1)))); err != nil {
+			return err
+		}
+		r.Stat("pad:older-valset")
+	case 3: // public access data that names the valset id 0
+		if err := e.publicAccess(ctx, id, 0); err != nil {
+			return err
+		}
+		r.Stat("pad:zero-valset")
 	default:
 		if err := e.publicAccess(ctx, id, cur); err != nil {
 			return err
@@ -2074,7 +2196,11 @@ func (e *c07Env) driveMessage(ctx sdk.Context, id uint64, kind string, caseKey *
 	// 4. the reported transaction
 	tx := e.buildTx(s, f)
 	r.Stat("tx:" + strings.SplitN(tx.what, ":", 2)[0])
-	r.Stat(fmt.Sprintf("receipt:%d", tx.status))
+	if tx.root > 0 {
+		r.Stat(fmt.Sprintf("receipt:state-root-%d:%s:exact=%v", tx.root, tx.class, tx.exact))
+	} else {
+		r.Stat(fmt.Sprintf("receipt:%d", tx.status))
+	}
 
 	// 4b. meanwhile governance saves a newer compass: from now on the expected call data is built
 	// with ITS ABI
@@ -2133,10 +2259,10 @@ func (e *c07Env) driveMessage(ctx sdk.Context, id uint64, kind string, caseKey *
 		j.what, j.status = "junk", 1
 		return j
 	}
-	withReceipt := func(vals []int, status int) []c07Ev {
+	withReceipt := func(vals []int, status, root int) []c07Ev {
 		out := tx.evs(vals)
 		for i := range out {
-			out[i].status = status
+			out[i].status, out[i].root = status, root
 		}
 		return out
 	}
@@ -2162,9 +2288,23 @@ func (e *c07Env) driveMessage(ctx sdk.Context, id uint64, kind string, caseKey *
 		evs = append(tx.evs(perm[:1]), junk().evs(perm[1:])...)
 	case m < 12: // SAME transaction, validators disagree on the receipt: success vs failed
 		split := [][2]int{{1, 3}, {3, 1}, {2, 2}, {1, 3}, {1, 2}, {2, 1}}[r.Rng.Intn(6)]
-		ok := withReceipt(perm[:split[0]], 1)
-		bad := withReceipt(perm[split[0]:split[0]+split[1]], 0)
+		// ... or one side reports a receipt without status code (a state root in its place): neither
+		// the success code nor byte-identical to the failure-code receipt
+		okRoot, badRoot := 0, 0
+		switch r.Rng.Intn(6) {
+		case 0:
+			badRoot = 1 + r.Rng.Intn(c07StateRoots)
+		case 1:
+			okRoot = 1 + r.Rng.Intn(c07StateRoots)
+		}
+		ok := withReceipt(perm[:split[0]], 1, okRoot)
+		bad := withReceipt(perm[split[0]:split[0]+split[1]], 0, badRoot)
 		mode = fmt.Sprintf("split-receipt-%d:%d", split[0], split[1])
+		if okRoot > 0 {
+			mode = fmt.Sprintf("split-receipt-root-vs-failed-%d:%d", split[0], split[1])
+		} else if badRoot > 0 {
+			mode = fmt.Sprintf("split-receipt-success-vs-root-%d:%d", split[0], split[1])
+		}
 		switch r.Rng.Intn(3) {
 		case 0: // success reports first (first-listed minority when it is one)
 			evs = append(ok, bad...)
@@ -2222,6 +2362,10 @@ func (e *c07Env) driveMessage(ctx sdk.Context, id uint64, kind string, caseKey *
 	winner := "none"
 	if grp != nil {
 		winner = fmt.Sprintf("%s/%d", grp.kind, grp.status)
+		if grp.kind == "tx" && grp.root > 0 {
+			winner = "tx/state-root"
+			r.Stat(fmt.Sprintf("quorum-on-state-root-receipt:%s:%s:exact=%v", kind, tx.class, grp.tx.exact))
+		}
 	}
 	canBuild := e.buildable(ctx, s, kind)
 	class, fx := e.attest(ctx, id, evs, kind)
@@ -2232,7 +2376,7 @@ func (e *c07Env) driveMessage(ctx sdk.Context, id uint64, kind string, caseKey *
 	r.Stat("evidence-outcome:" + strings.SplitN(mode, ":success", 2)[0] + ":" + class)
 	*caseKey = fmt.Sprintf("%s/%s/%s/%s/%s/%v", kind, mode, winner, tx.what, class, fx)
 	txWon := grp != nil && grp.kind == "tx" && grp.tx == tx
-	if txWon && tx.exact && grp.status == 1 {
+	if txWon && tx.exact && grp.status == 1 && grp.root == 0 {
 		r.Stat(fmt.Sprintf("exact-tx:%s:est=%v:sigs=%d:%s:fx=%d", kind, estimated, k, class, len(fx)))
 	}
 	if class == "panic" {
@@ -2270,7 +2414,7 @@ func (e *c07Env) driveMessage(ctx sdk.Context, id uint64, kind string, caseKey *
 		r.Stat(fmt.Sprintf("resubmit-enc:%s:%d->%d", tx.class, grp.enc, enc2))
 		evs2 := tx.evs(c07Perm(r, 3))
 		for i := range evs2 {
-			evs2[i].status, evs2[i].log, evs2[i].variant, evs2[i].enc = grp.status, grp.log, grp.variant, enc2
+			evs2[i].status, evs2[i].root, evs2[i].log, evs2[i].variant, evs2[i].enc = grp.status, grp.root, grp.log, grp.variant, enc2
 		}
 		if err := e.addEvidence(ctx, id2, evs2); err != nil {
 			return err
